@@ -27,6 +27,52 @@ Inductive verdict :=
   | VSelect          (* SelectBranch *)
   | VStop.           (* StopTraversal / StopIteration *)
 
+(* What a predicate can do, as far as the quantifier of the property goes:
+   return True / False / None or a control instance, raise a control instance
+   (a raised control *class* is instantiated by Python without arguments, i.e.
+   with the defaults and_self=None / value=None), or raise the builtin
+   StopIteration.  [and_self] is the keyword of SkipBranch. *)
+Inductive ctl := CSkip (and_self : option bool) | CSelect | CStop.
+Inductive raw :=
+  | RBool (b : bool) | RNone
+  | RRet (c : ctl)
+  | RRaise (c : ctl)
+  | RRaiseStopIteration.
+
+(* nutree.common.call_predicate: the canonical result *)
+Inductive pres := PBool (b : bool) | PNone | PCtl (c : ctl).
+Definition call_predicate (r : raw) : pres :=
+  match r with
+  | RBool b => PBool b
+  | RNone => PNone
+  | RRet c => PCtl c                  (* res = fn(node) *)
+  | RRaise c => PCtl c                (* except IterationControl as e: return e *)
+  | RRaiseStopIteration => PCtl CStop (* except StopIteration as e: return StopTraversal(e.value) *)
+  end.
+
+Definition skip_verdict (a : option bool) : verdict :=
+  match a with Some false => VSkipKeepSelf | _ => VSkip end.   (* res.and_self is False *)
+
+(* the if/elif chain of Node.filter._visit *)
+Definition classify_ip (r : pres) : verdict :=
+  match r with
+  | PNone | PBool false => VFalse            (* res in (None, False) *)
+  | PBool true => VTrue                      (* res is True *)
+  | PCtl CSelect => VSelect
+  | PCtl (CSkip a) => skip_verdict a
+  | PCtl CStop => VStop
+  end.
+
+(* the if/elif chain of Node._add_filtered._visit (other order of the tests) *)
+Definition classify_cp (r : pres) : verdict :=
+  match r with
+  | PCtl (CSkip a) => skip_verdict a
+  | PCtl CStop => VStop
+  | PCtl CSelect => VSelect
+  | PNone => VFalse
+  | PBool b => if b then VTrue else VFalse
+  end.
+
 Definition ocons {X} (o : option X) (l : list X) : list X :=
   match o with Some x => x :: l | None => l end.
 
